@@ -204,8 +204,8 @@ def gridCard : IGrid → IGrid → Nat
 
 /-- `make_min_igrid` / `make_max_igrid` / `make_avg_igrid` for grids with the given numbers of values (util.cpp:8-41) -/
 def minOf (sizes : List Nat) : IGrid := sizes.map fun _ => 0
-def maxOf (sizes : List Nat) : IGrid := sizes.map fun n => (n : Int) - 1
-def avgOf (sizes : List Nat) : IGrid := sizes.map fun n => ((n / 2 : Nat) : Int)
+def maxOf (sizes : List Nat) : IGrid := sizes.map fun n => Int.ofNat n - 1
+def avgOf (sizes : List Nat) : IGrid := sizes.map fun n => Int.ofNat (n / 2)
 
 /-- `tuner_t::optimize(spaces, callback, logger)` for spaces with `sizes` grid values -/
 def tunerOptimize {α : Type} (kind : Kind) (sizes : List Nat) (maxEvals : Nat) (fin : α → Bool) (f : IGrid → α)
